@@ -95,7 +95,9 @@ def cases(seed, tier):
         for weight in (False, True):
             for script in (['bootstrap', 'like'], ['deriv', 'bootstrap', 'deriv'], ['like', 'estimate', 'like_scaled'],
                            ['deriv', 'simulate', 'like'], ['set_threads_down', 'simulate', 'like'], ['quick_estimate', 'deriv_scaled'],
-                           ['deriv', 'set_threads_up', 'like'], ['estimate', 'set_threads_up', 'like_scaled', 'deriv']):
+                           ['deriv', 'set_threads_up', 'like'], ['estimate', 'set_threads_up', 'like_scaled', 'deriv'],
+                           ['init_like', 'change_init', 'init_like'], ['estimate', 'change_init', 'estimate', 'init_like'],
+                           ['init_like', 'random_init', 'init_like', 'like'], ['estimate', 'random_init', 'bootstrap']):
                 out.append({'seed': seed, 'i': 900000 + k, 'mode': 'history', 'tier': tier, 'kind': kind, 'weight': weight,
                             'script': script})
                 k += 1
@@ -853,8 +855,8 @@ def _directed(case, rec):
 
 
 HIST_OPS = ['like', 'like_scaled', 'deriv', 'deriv_scaled', 'deriv_nohess', 'simulate', 'set_threads', 'set_threads_alias',
-            'estimate', 'quick_estimate', 'bootstrap', 'validate', 'dbop']
-HIST_WEIGHTS = [4, 3, 4, 3, 2, 4, 3, 1, 1, 1, 2, 0.4, 1.2]
+            'estimate', 'quick_estimate', 'bootstrap', 'validate', 'dbop', 'init_like', 'change_init', 'random_init', 'null_like']
+HIST_WEIGHTS = [4, 3, 4, 3, 2, 4, 3, 1, 1, 1, 2, 0.4, 1.2, 3, 2, 1, 0.6]
 
 
 def _force_weight(spec, want, r):
@@ -889,6 +891,10 @@ def _progress(history, flags):
 def _history_child(case):
     rec = Rec(case)
     warnings.simplefilter('ignore')
+    if _PROGRESS.get('cwd'):
+        # iteration files, biogeme.toml of validate ... stay private to this history
+        os.makedirs(_PROGRESS['cwd'], exist_ok=True)
+        os.chdir(_PROGRESS['cwd'])
     _history_case(case, rec)
     return rec.out()
 
@@ -903,7 +909,14 @@ def _history_forked(case):
         os.remove(_PROGRESS['path'])
     except OSError:
         pass
-    res = run_forked(_history_child, case, max(60.0, CASE_TIMEOUT - 60.0))
+    _PROGRESS['cwd'] = os.path.join(os.environ.get('BIOMON_WORKDIR') or '.', f'c04_history_cwd_{os.getpid()}')
+    import shutil
+
+    shutil.rmtree(_PROGRESS['cwd'], ignore_errors=True)
+    try:
+        res = run_forked(_history_child, case, max(60.0, CASE_TIMEOUT - 60.0))
+    finally:
+        shutil.rmtree(_PROGRESS['cwd'], ignore_errors=True)
     prog = {}
     try:
         with open(_PROGRESS['path']) as f:
@@ -963,6 +976,11 @@ def _history_case(case, rec):
     flags = {'derivatives_called': False, 'threads_raised_after_derivatives': False, 'resolved_threads': _expected_threads(T0, 'param')}
     params = {'max_iterations': (r.randint(1, 4), 'SimpleBounds'), 'bootstrap_samples': (r.randint(1, 3), None),
               'generate_html': (False, None), 'generate_pickle': (False, None)}
+    if r.random() < 0.3:
+        # a later estimate then starts from the saved iteration file (private cwd): the starting point handed to the
+        # optimiser is observed (spy on optimize), never assumed
+        params['save_iterations'] = (True, None)
+        rec.c('history_save_iterations_on')
     state = {'spec': spec, 'version': 0}
     history = []
     wit = {'spec': spec, 'threads_at_construction': T0, 'parameters': {k: v[0] for k, v in params.items()}, 'history': history}
@@ -1108,6 +1126,14 @@ def _history_case(case, rec):
 
     def do_estimate(which):
         b = state['bg']
+        starts = []
+        real_optimize = b.optimize
+
+        def spy(starting_values=None):
+            starts.append(None if starting_values is None else np.array(starting_values, dtype=float).copy())
+            return real_optimize(starting_values)
+
+        b.optimize = spy  # instance attribute: observes the point actually handed to the optimiser
         try:
             if which == 'estimate':
                 res_ = b.estimate()
@@ -1118,7 +1144,18 @@ def _history_case(case, rec):
         except BaseException as e:  # estimation itself is not the subject here: recorded, history stops
             rec.c(f'history_{which}_raised_{type(e).__name__}')
             return False
+        finally:
+            try:
+                del b.optimize
+            except AttributeError:
+                pass
         state['results'] = res_
+        ill = getattr(res_.data, 'initLogLike', None)
+        if ill is not None:
+            if starts and starts[0] is not None and len(starts[0]) == len(names):
+                judge_init(f'{which}: results.data.initLogLike', float(ill), {nm: float(v) for nm, v in zip(names, starts[0])})
+            else:
+                rec.c('history_estimation_start_not_observed')
         flags['derivatives_called'] = True
         flags['threads_raised_after_derivatives'] = False
         est = res_.get_beta_values()
@@ -1132,6 +1169,67 @@ def _history_case(case, rec):
                 exp['J'].cmp('f', float(res_.data.logLike), exp['sim_sum'], RT_ENGINE, 'history-estimation-final-loglikelihood-differs-from-weighted-sum-of-simulated',
                              f'{which}: reported final log likelihood vs weighted sum of simulate at the estimates', history=list(history))
         return True
+
+    def current_start():
+        b = state['bg']
+        return {nm: float(v) for nm, v in zip(b.free_beta_names, b.id_manager.free_betas_values)}
+
+    def judge_init(label, reported, pt):
+        """a reported initial log likelihood vs the weighted sum of simulate at the starting values in force"""
+        exp = fresh(pt)
+        if exp is None:
+            rec.c('history_starting_point_rejected_by_reference')
+            return
+        rec.c('history_initial_loglikelihood_judged')
+        if flags.get('start_changed'):
+            rec.c('history_initial_loglikelihood_judged_after_start_change')
+        hw = {'history': list(history), 'starting_values': pt}
+        exp['J'].cmp('f', reported, exp['sim_sum'], RT_ENGINE, 'history-initial-loglikelihood-differs-from-weighted-sum-of-simulated-at-current-starting-values',
+                     f'{label} after {history[:-1]}: vs weighted sum of simulate at the starting values in force', **hw)
+        exp['J'].cmp('f', reported, exp['ref']['F'], RT_REF_F, 'history-initial-loglikelihood-differs-from-reference-weighted-sum-at-current-starting-values',
+                     f'{label} after {history[:-1]}: vs reference at the starting values in force', **hw)
+
+    def do_init_like():
+        pt = current_start()
+        v = float(state['bg'].calculate_init_likelihood())
+        judge_init('calculate_init_likelihood()', v, pt)
+        rec.ev()
+        if state['bg'].initLogLike != v:
+            viol('history-initLogLike-attribute-differs-from-returned-value', f'initLogLike={state["bg"].initLogLike} returned {v}')
+
+    def do_change_init():
+        sub = [nm for nm in names if r.random() < 0.8] or list(names)
+        new = {nm: round(r.uniform(-1.0, 1.0), 3) for nm in sub}
+        state['bg'].change_init_values(new)
+        flags['start_changed'] = True
+        rec.ev()
+        now = current_start()
+        if any(abs(now[nm] - v) > 0 for nm, v in new.items()):
+            viol('history-change_init_values-not-applied', f'asked {new}, starting values now {now}')
+
+    def do_random_init():
+        state['bg'].set_random_init_values(default_bound=r.choice([0.5, 1.0, 1.5]))
+        flags['start_changed'] = True
+
+    def do_null_like():
+        sp = state['spec']
+        if sp['kind'] != 'logit':
+            rec.c('history_null_loglikelihood_skipped')
+            return
+        node = sp['ast']
+        alts = [k for k, _ in node[1]]
+        avs = None if node[2] is None else {int(k): a for k, a in node[2]}
+        av_expr = {int(k): (1 if avs is None else build.build({'ast': avs[int(k)], 'shared': [], 'betas': {}})[0]) for k in alts}
+        v = float(state['bg'].calculate_null_loglikelihood(av_expr))
+        # equal-probability model: -log(number of available alternatives) per row (the library defines it unweighted)
+        cnt = np.zeros(len(next(iter(sp['data'].values()))))
+        for k in alts:
+            cnt = cnt + (1.0 if avs is None else np.asarray(sp['data'][avs[int(k)][1]], dtype=float))
+        rec.ev()
+        rec.c('history_null_loglikelihood_judged')
+        expv = -math.fsum(np.log(cnt).tolist())
+        if not abs(v - expv) <= 1e-9 * abs(expv) + 1e-11:
+            viol('history-null-loglikelihood-differs-from-sum-of-minus-log-availabilities', f'reported {v}, expected {expv}')
 
     def do_validate():
         sp = state['spec']
@@ -1184,7 +1282,8 @@ def _history_case(case, rec):
         state['version'] += 1
         T = r.choice(tpool + [0])
         state['bg'], _ = _build(sp2, T, 'param', params=params, database=d_)
-        flags.update({'derivatives_called': False, 'threads_raised_after_derivatives': False, 'resolved_threads': _expected_threads(T, 'param')})
+        flags.update({'derivatives_called': False, 'threads_raised_after_derivatives': False, 'resolved_threads': _expected_threads(T, 'param'),
+                      'start_changed': False})
         state.pop('results', None)
         return True
 
@@ -1223,6 +1322,14 @@ def _history_case(case, rec):
             elif op == 'validate':
                 if not do_validate():
                     break
+            elif op == 'init_like':
+                do_init_like()
+            elif op == 'change_init':
+                do_change_init()
+            elif op == 'random_init':
+                do_random_init()
+            elif op == 'null_like':
+                do_null_like()
             elif op == 'dbop':
                 if not do_dbop():
                     break
@@ -1256,7 +1363,9 @@ def finalize(cov, tier):
     for k in ('history_cases_run', 'history_calls_judged', 'history_calls_judged_after_bootstrap', 'history_calls_judged_after_estimation',
               'history_calls_judged_after_simulate', 'history_calls_judged_after_thread_change', 'history_family_logit',
               'history_family_panel', 'history_weight_yes', 'history_weight_no', 'history_op_dbop', 'history_op_bootstrap',
-              'history_op_quick_estimate', 'history_estimation_final_loglikelihood_judged'):
+              'history_op_quick_estimate', 'history_estimation_final_loglikelihood_judged', 'history_initial_loglikelihood_judged',
+              'history_initial_loglikelihood_judged_after_start_change', 'history_op_change_init', 'history_op_random_init',
+              'history_op_init_like', 'history_save_iterations_on'):
         if cov.get(k, 0) == 0:
             out.append(f'history family: never observed: {k}')
     for d in DIRECTED:
